@@ -94,7 +94,9 @@ TWriteFail == IsEvent("conn.write") /\ E.ok = 0
                    \/ ph[E.c] = "stopping" /\ ph' = [ph EXCEPT ![E.c] = "leaving"]
                 /\ UNCHANGED <<svars, serveRunning, accepting, open, mark, inmap, netClosed, cclosed, tout, wire, buf, sent, nstart, unflushed, delivered, lost>>
 TCCBreak == IsEvent("srv.cc.break") /\ CloseBreak(E.c)
-TIdle == IsEvent("srv.idle") /\ MarkIdleEffect(E.c) /\ MarkOk(E.c)
+\* (the model's count of buffered requests is an upper bound of the real one: where it allows both, the logged
+\* stamp tells which way the code went)
+TIdle == IsEvent("srv.idle") /\ MarkIdleTo(E.c, ph[E.c] = "written" \/ (buf[E.c] > 0 /\ E.m = 0)) /\ MarkOk(E.c)
 TStopSeen == IsEvent("srv.stop.seen") /\ StopSeen(E.c) /\ MarkOk(E.c)
 \* leaving the loop: after a failed read (client or Shutdown closed the connection), on stop, after a break
 TUnreg == IsEvent("srv.conn.unreg")
